@@ -33,6 +33,11 @@ import (
 type Collector struct {
 	mu    sync.Mutex
 	stack ers.Stack
+
+	// resolved is the value handed out by Resolve since the last
+	// Add: a copy of the head of the stack, so that callers never
+	// share memory that a later Add modifies.
+	resolved *ers.Stack
 }
 
 // New constructs an empty Collector. Collectors can be used without
@@ -49,6 +54,7 @@ func (ec *Collector) Add(err error) {
 	}
 	defer with(lock(&ec.mu))
 	ec.stack.Push(err)
+	ec.resolved = nil
 }
 
 // Obesrver returns the collector's Add method as a
@@ -75,7 +81,10 @@ func (ec *Collector) Len() int { defer with(lock(&ec.mu)); return ec.stack.Len()
 // collector.
 func (ec *Collector) Iterator() *fun.Iterator[error] {
 	defer with(lock(&ec.mu))
-	return fun.CheckProducer(ec.stack.CheckProducer()).Iterator()
+	// iterate a copy of the head of the stack: the head is modified in
+	// place by later Add calls, everything beneath it is immutable.
+	st := ec.stack
+	return fun.CheckProducer(st.CheckProducer()).Iterator()
 }
 
 // Resolve returns an error of type *erc.Stack, or nil if there have
@@ -89,7 +98,15 @@ func (ec *Collector) Resolve() error {
 		return nil
 	}
 
-	return &ec.stack
+	// return a copy of the head of the stack: the head is modified in
+	// place by later Add calls (while the caller inspects the error
+	// without the collector's lock,) everything beneath it is
+	// immutable. The same copy is returned until the next Add.
+	if ec.resolved == nil {
+		st := ec.stack
+		ec.resolved = &st
+	}
+	return ec.resolved
 }
 
 // HasErrors returns true if there are any underlying errors, and
